@@ -346,7 +346,7 @@ class Program:
             if mark in f_:
                 f_ = mark[1:] + f_.rsplit(mark, 1)[1]
                 break
-        return '%s|%d|%s' % (q, len(fn.params), f_)
+        return '%s|%d|%s%s' % (q, len(fn.params), f_, ('|' + str(fn.targs)) if fn.targs else '')
 
     @staticmethod
     def local_names(fn):
